@@ -164,7 +164,16 @@ func (w *readerWorld) open(ctx context.Context, d descriptor.Descriptor) (*blob.
 	if w.c.Unseekable {
 		rdr = struct{ io.Reader }{w.src}
 	}
-	return blob.NewReader(blob.WithReader(rdr), blob.WithDesc(d)), nil
+	opts := []blob.Opts{blob.WithReader(rdr), blob.WithDesc(d)}
+	if w.c.Passes[0].HdrOfServed {
+		// headers vouching for the served stream; the caller's descriptor must win
+		h := http.Header{}
+		h.Set("Content-Type", "application/octet-stream")
+		h.Set("Content-Length", strconv.Itoa(len(w.streams[0])))
+		h.Set("Docker-Content-Digest", digestOf(w.c.Algo, w.streams[0]))
+		opts = append(opts, blob.WithHeader(h))
+	}
+	return blob.NewReader(opts...), nil
 }
 func (w *readerWorld) nextPass(p int)      { w.src.cur = p }
 func (w *readerWorld) stream(p int) []byte { return w.streams[p] }
@@ -316,7 +325,11 @@ func (w *regWorld) intercept(m *rm.Model, h *rm.Host, e *rm.Entry, req *http.Req
 		r := &rm.Resp{Status: status, Header: http.Header{}, Body: body, TruncateAt: -1}
 		r.Header.Set("Content-Type", "application/octet-stream")
 		if !w.c.Redirect {
-			r.Header.Set("Docker-Content-Digest", w.dig)
+			if w.c.Passes[p].HdrOfServed {
+				r.Header.Set("Docker-Content-Digest", digestOf(w.c.Algo, S))
+			} else {
+				r.Header.Set("Docker-Content-Digest", w.dig)
+			}
 		}
 		return r
 	}
